@@ -1334,11 +1334,13 @@ class ProcessPoolExecutor(Executor):
                 _threads_wakeups.pop(executor_manager_thread, None)
 
         # To reduce the risk of opening too many files, remove references to
-        # objects that use file descriptors.
-        self._executor_manager_thread = None
-        self._executor_manager_thread_wakeup = None
-        self._call_queue = None
-        self._result_queue = None
-        self._processes_management_lock = None
+        # objects that use file descriptors. With wait=False the manager
+        # thread may still need them to re-spawn workers for pending jobs.
+        if wait or executor_manager_thread is None:
+            self._executor_manager_thread = None
+            self._executor_manager_thread_wakeup = None
+            self._call_queue = None
+            self._result_queue = None
+            self._processes_management_lock = None
 
     shutdown.__doc__ = Executor.shutdown.__doc__
